@@ -43,6 +43,7 @@ type Env struct {
 	Out     *harness.Outcome
 	Hung    bool // a call never returned: goroutines are left behind on purpose
 	Truncated bool  // the last ListUsers call ran into its deadline
+	LoEngine int     // ListObjects engine of the server the current call goes to (-1 = from the scenario knob)
 	SigExtra string // appended to violation signatures by the judges (context of the current call)
 	cleanup []func()
 }
@@ -76,7 +77,7 @@ func dsConfig(sc *gen.Scenario) simstore.DSConfig {
 func Setup(t *testing.T, sc *gen.Scenario, trace bool, out *harness.Outcome) *Env {
 	keys.Seed = 0x5eed0000 ^ (sc.RunSeed & 0xffff)
 	run := simrt.Begin(simrt.Config{Seed: sc.RunSeed, Mode: int(sc.Knob("delay_mode", 0)), Trace: trace, MaxYield: sc.Knob("max_yield_ns", 2000)})
-	e := &Env{T: t, Sc: sc, Run: run, Out: out}
+	e := &Env{T: t, Sc: sc, Run: run, Out: out, LoEngine: -1}
 	e.Mem = memory.New()
 	e.DS = simstore.NewDS(e.Mem, run, dsConfig(sc))
 	e.StoreID = e.NewULID(1)
@@ -109,7 +110,9 @@ func Setup(t *testing.T, sc *gen.Scenario, trace bool, out *harness.Outcome) *En
 }
 
 // WriteTuplesRaw writes through the raw datastore (no validation: leftovers allowed).
-func (e *Env) WriteTuplesRaw(ts []rm.Tuple) error {
+func (e *Env) WriteTuplesRaw(ts []rm.Tuple) error { return e.WriteTuplesRawTo(e.StoreID, ts) }
+
+func (e *Env) WriteTuplesRawTo(storeID string, ts []rm.Tuple) error {
 	for i := 0; i < len(ts); i += 40 {
 		j := i + 40
 		if j > len(ts) {
@@ -119,7 +122,7 @@ func (e *Env) WriteTuplesRaw(ts []rm.Tuple) error {
 		for _, t := range ts[i:j] {
 			w = append(w, t.TupleKey())
 		}
-		if err := e.Mem.Write(context.Background(), e.StoreID, nil, w); err != nil {
+		if err := e.Mem.Write(context.Background(), storeID, nil, w); err != nil {
 			return err
 		}
 	}
@@ -266,16 +269,16 @@ func (e *Env) JudgeCheck(who string, rq gen.Request, st *rm.State, allowed bool,
 		e.Violate("unexpected_error:"+errKind(err), "err="+errSig(err), "%s: error %v (%s)", desc, err, ref)
 		return
 	}
-	sig := shapeSig(e.Sc.Model, rq)
+	sig := shapeSig(e.Sc.Model, rq) + e.SigExtra
 	switch {
 	case allowed && !sup.CanBeTrue:
-		e.Violate("true_for_false", sig, "%s: allowed=true, %s", desc, ref)
+		e.Violate("true_for_false", sig+e.grantTags(st, rq), "%s: allowed=true, %s", desc, ref)
 	case allowed && sup.CanBeFalse:
 		if sup.Approx {
 			simrt.Probe("approx_skipped")
 			return
 		}
-		e.Violate("true_for_undecided", sig, "%s: allowed=true although the answer depends on a condition that cannot be evaluated (%s)", desc, ref)
+		e.Violate("true_for_undecided", sig+e.grantTags(st, rq), "%s: allowed=true although the answer depends on a condition that cannot be evaluated (%s)", desc, ref)
 	case !allowed && !sup.CanBeFalse:
 		if st.DiffSubtrahendReachesCycle(rq.Obj, rq.Rel) {
 			sig += " diff_subtrahend_reaches_tuple_cycle"
@@ -327,6 +330,26 @@ func errKind(err error) string {
 		return "validation"
 	}
 	return "internal"
+}
+
+// grantTags: the known "loses a tuple" defects (F1, F10) turn into wrongly GRANTED access when the
+// lost membership sits under an exclusion's subtrahend.
+func (e *Env) grantTags(st *rm.State, rq gen.Request) string {
+	for _, t := range st.Tuples {
+		if e.Sc.Model.IsTupleset(rm.ObjType(t.Obj), t.Rel) && (rm.IsUserset(t.User) || rm.IsWildcard(t.User)) {
+			return " userset_or_wildcard_tuple_left_on_tupleset_relation"
+		}
+	}
+	if !ReachesKind(e.Sc.Model, rm.ObjType(rq.Obj), rq.Rel, rm.Difference) {
+		return ""
+	}
+	switch {
+	case st.ShadowedSibling(rq.User, rq.Ctx):
+		return " under_exclusion unsatisfied_conditional_tuple_shadows_sibling_of_same_object"
+	case st.DiffSubtrahendReachesCycle(rq.Obj, rq.Rel):
+		return " under_exclusion diff_subtrahend_reaches_tuple_cycle"
+	}
+	return ""
 }
 
 func errSig(err error) string {
